@@ -95,7 +95,12 @@ def prefixed_string_tables(tree):
                 and isinstance(x.left.args[0].op, ast.Sub) and _set_of_const(x.left.args[0].right) is not None:
             rawsets.append(_set_of_const(x.left.args[0].right))
     raw = _one(rawsets, what + ": len(<name> - set(<literal>)) > 1")
-    qc = _nested_func(fn, "quote_closing", what)
+    # the closure is looked up by name: inside prefixed_string, or (if it was moved into a helper) anywhere in HyReader
+    try:
+        qc = _nested_func(fn, "quote_closing", what)
+    except ShapeChanged:
+        cls = _one([n for n in tree.body if isinstance(n, ast.ClassDef) and n.name == "HyReader"], HR + ": class HyReader")
+        qc = _nested_func(cls, "quote_closing", HR + ":HyReader")
     # c not in (COMMON + ("" if "b" in prefix else NONBYTES))
     wl = []
     for x in _walk(qc):
